@@ -330,14 +330,28 @@ func c32Check(c *vkit.Check, cs c32Case, b *c32Built) { //nolint:gocognit,cyclop
 		seq := uint16(65534)
 		for idx, pk := range b.packets {
 			for k, p := range pk {
+				// the packet is handed over in the caller's receive buffer, which the caller overwrites as soon as
+				// WriteRTP returned (a receive loop around one buffer): a writer that keeps a fragment's slice until
+				// the frame is complete assembles whatever the buffer holds by then. Not for AV1: there the
+				// depacketizer of the pion/rtp dependency itself keeps a sub-slice of the payload for a fragmented
+				// OBU, which is outside pion/webrtc.
+				recv := p
+				if cs.Codec != "AV1" && cs.Codec != "av1" {
+					recv = append([]byte{}, p...)
+				}
 				err = w.WriteRTP(&rtp.Packet{
 					Header: rtp.Header{
 						Version: 2, PayloadType: 96, SequenceNumber: seq, SSRC: 1,
 						Timestamp: cs.Start + cs.Step*uint32(idx), //nolint:gosec
 						Marker:    k == len(pk)-1,
 					},
-					Payload: p,
+					Payload: recv,
 				})
+				if cs.Codec != "AV1" && cs.Codec != "av1" {
+					for j := range recv {
+						recv[j] = 0xEE
+					}
+				}
 				seq++
 				if err != nil {
 					bad("writer-error|write|"+c32Class(cs), fmt.Sprintf("WriteRTP frame %d packet %d: %v", idx, k, err))
